@@ -80,6 +80,21 @@ func (p *clientStreamProcessorFMP4) run(ctx context.Context) error {
 		return fmt.Errorf("rendition playlists with multiple tracks are not supported")
 	}
 
+	// skip tracks with unsupported codecs, reject invalid time scales
+	var supportedTracks []*fmp4.InitTrack
+	for _, track := range p.init.Tracks {
+		if track.TimeScale == 0 {
+			return fmt.Errorf("invalid time scale")
+		}
+		if codecs.FromFMP4(track.Codec) != nil {
+			supportedTracks = append(supportedTracks, track)
+		}
+	}
+	if len(supportedTracks) == 0 {
+		return fmt.Errorf("no supported tracks found")
+	}
+	p.init.Tracks = supportedTracks
+
 	p.leadingTrackID = fmp4PickLeadingTrack(&p.init)
 
 	tracks := make([]*Track, len(p.init.Tracks))
